@@ -92,7 +92,7 @@ package transport
 // assigned wire ID (after the 2-byte length prefix on TCP). The caller's payload is not modified
 // (it is shared by the retries of PipelineTransport.ExchangeContext).
 //@ func (c *pipelineConn) write(m []byte, qid uint16) (err error)
-//@   props C05 C20
+//@   props C05 C20 C16
 //@   requires c != nil && c.t != nil && c.c != nil && c.t.logger != nil && 2 <= len(m) && len(m) <= 65535
 //@   ghost nWr int = 0
 //@   oncall Write: nWr = nWr + 1
